@@ -1,5 +1,5 @@
 CONSTANTS
-  D = 8
+  D = 6
   Offs <- OffsQuick
   Dev = {}
 INIT MCInit
